@@ -23,6 +23,39 @@ Theorem ante_rejects_stranger : forall g spec m,
 Proof. exact ante_rejects_stranger_lemma. Qed.
 Print Assumptions ante_rejects_stranger.
 
+(** The decorator's per-message loop carries no state between the messages of a transaction
+    (which variables are declared outside the loop and used inside is extracted from the Go AST). *)
+Theorem decorator_loop_stateless : Gen.C03.ante_lookup_carried = false.
+Proof. exact decorator_loop_stateless_lemma. Qed.
+Print Assumptions decorator_loop_stateless.
+
+(** ante_sound per message of a multi-message transaction (nested authz.MsgExec messages
+    flattened in): the decorator as the code has it accepts the transaction only if EVERY message
+    with metadata has, among ITS OWN signers, its creator or a fee-grantee of ITS creator. *)
+Theorem ante_tx_sound : forall g tx, ante_tx Gen.C03.ante_lookup_carried g tx = true ->
+  forall spec m, In (spec, m) tx -> ms_has_meta spec = true ->
+  exists sg, In sg (m_meta_signers m) /\ (sg = m_creator m \/ granted g (m_creator m) sg = true).
+Proof. exact table_ante_tx_sound. Qed.
+Print Assumptions ante_tx_sound.
+
+(** Why the loop shape is pinned: a lookup table carried across iterations makes the decorator
+    accept a message none of whose signers is authorised by its creator. *)
+Theorem ante_carry_refuted :
+  exists g tx spec m, ante_tx true g tx = true /\ In (spec, m) tx /\ ms_has_meta spec = true /\
+    forall sg, In sg (m_meta_signers m) -> sg <> m_creator m /\ granted g (m_creator m) sg = false.
+Proof. exact ante_carry_refuted_lemma. Qed.
+Print Assumptions ante_carry_refuted.
+
+(** Whole transactions (decorator over all messages, then all handlers, all-or-nothing): whatever
+    held in p's name changed, some message OF THE TRANSACTION was authorised by p. *)
+Theorem tx_no_cross_principal : forall auth g tx s s',
+  (forall spec m, In (spec, m) tx -> In spec Gen.C03.specs /\ spec_named known_open spec = false) ->
+  deliver_tx Gen.C03.ante_lookup_carried auth g tx s = Done s' ->
+  forall p, get (owned s') p <> get (owned s) p ->
+  exists spec m, In (spec, m) tx /\ authorised auth g spec m p.
+Proof. exact table_tx_no_cross_principal. Qed.
+Print Assumptions tx_no_cross_principal.
+
 (** Every message type of the generated table carries metadata: the decorator skips none. *)
 Theorem every_message_has_metadata : forallb ms_has_meta Gen.C03.specs = true.
 Proof. exact table_all_have_metadata. Qed.
